@@ -82,6 +82,7 @@ def flat_program(pid, fnodes, fout, elem, key, bstream, a, r):
     nodes.append(P.node("rec", ins=[out]))
     p = P.program(pid, nodes, start=a, end=r)
     p["_out"] = out
+    p["_idmap"] = dict(idmap, a0=1)
     p["_thrower"] = [idmap[n[0]] for n in fnodes if n[1] == "throwneg"]
     return p
 
@@ -371,16 +372,25 @@ def check_c12(chk, rng):
         ts1 = P.gen_script(rng, horizon, maxlen=5)
         ts2 = P.gen_script(rng, horizon, maxlen=3, values=(10, 20)) if two else []
         lines = ["scn sw%d" % s, "opt start=1 end=%d" % (horizon + 1)]
+        # three: the branches return a three-element list assembled from three ports - the last node, the first node and
+        # the held input itself - so the switch output is a forwarding tree with three leaves
+        three = rng.random() < 0.3
+        outs3 = [[fout, fn[0][0], "a0"] for fn, fout in branches]
         for b, (fn, fout) in enumerate(branches):
-            lines += ["graph g%d nin=%d" % (b, 2 if two else 1)] + [fn_stmt(n) for n in fn] + ["out %d" % fout, "endgraph"]
+            lines += ["graph g%d nin=%d" % (b, 2 if two else 1)] + [fn_stmt(n) for n in fn] + \
+                     ["out %s" % (",".join(str(x) for x in outs3[b]) if three else fout), "endgraph"]
         lines += ["graph root", "n 1 src script=" + ";".join("%d:%d" % (t, v) for t, v in kticks),
                   "n 2 src script=" + ";".join("%d:%d" % (t, v) for t, v in ts1)]
         if two:
             lines.append("n 5 src script=" + ";".join("%d:%d" % (t, v) for t, v in ts2))
         cases = ",".join("%d:%d" % (b + 1, b) for b in range(nb))
-        lines.append("n 3 switch in=1,2%s cases=%s%s%s" % (",5" if two else "", cases, " dflt=%d" % dflt if has_default else "",
-                                                         " reload=1" if reload else ""))
-        lines += ["n 4 rec in=3", "endgraph", "run"]
+        lines.append("n 3 switch%s in=1,2%s cases=%s%s%s" % ("3" if three else "", ",5" if two else "", cases, " dflt=%d" % dflt if has_default else "",
+                                                           " reload=1" if reload else ""))
+        if three:
+            lines += ["n 141 elem3 in=3 i=0", "n 142 elem3 in=3 i=1", "n 143 elem3 in=3 i=2", "n 4 rec in=141", "n 152 rec in=142", "n 153 rec in=143",
+                      "endgraph", "run"]
+        else:
+            lines += ["n 4 rec in=3", "endgraph", "run"]
         scn = "\n".join(lines)
         # selection intervals
         ivs, cur, fail_at = [], None, None
@@ -405,12 +415,12 @@ def check_c12(chk, rng):
             progs.append(p)
             ips.append((a, r, b, p))
         scns.append(scn)
-        metas.append((ips, fail_at, horizon))
+        metas.append((ips, fail_at, horizon, outs3 if three else None))
     preds, res = dfcheck.predict(progs, tag="c12")
     chk.add_tlc(res, "branch-alone")
     traces = hg.run_driver("engine", scns)
     nfail = 0
-    for scn, (ips, fail_at, horizon), tr in zip(scns, metas, traces):
+    for scn, (ips, fail_at, horizon, outs3), tr in zip(scns, metas, traces):
         chk.count({"scn": scn})
         if isinstance(tr, dict):
             chk.violation("crash", "driver crashed/hung: %s" % json.dumps(tr)[:300], scn)
@@ -429,6 +439,15 @@ def check_c12(chk, rng):
             continue
         want = sorted((t, v) for a, r, b, p in ips for t, i, v in preds[p["id"]]["writes"] if i == p["_out"] and (fail_at is None or t < fail_at))
         got = sorted((e["t"], e["v"]) for e in tr if e["e"] == "rec" and e["id"] == 4 and (fail_at is None or e["t"] < fail_at))
+        if outs3 is not None and want == got:
+            # the other two leaves of the forwarding tree: the branch's first node and the held input itself
+            for pos, rid in ((1, 152), (2, 153)):
+                w2 = sorted((t, v) for a, r, b, p in ips for t, i, v in preds[p["id"]]["writes"]
+                            if i == p["_idmap"][outs3[b][pos]] and (fail_at is None or t < fail_at))
+                g2 = sorted((e["t"], e["v"]) for e in tr if e["e"] == "rec" and e["id"] == rid and (fail_at is None or e["t"] < fail_at))
+                if w2 != g2:
+                    want, got = [("leaf%d" % pos,)] + w2, [("leaf%d" % pos,)] + g2
+                    break
         if want != got:
             chk.violation("switch-stream", "switch_ output: selected branches run alone (Dataflow.tla) give %s, switch_ produced %s" % (want, got),
                           "# C12 switch_\n" + scn + "\n")
